@@ -439,6 +439,9 @@ package memberlist
 //@ ghost $relaySeq int
 //@ ghost $relayPort int
 //@ ghost $reqPort int
+//@ ghost $relayReg bool
+//@ ghost $nackArmed bool
+//@ ghost $reqNack bool
 //@ func (*Memberlist).handleIndirectPing(m, buf, from)
 //@   safety [C13,C19]
 //@   modular
@@ -450,6 +453,12 @@ package memberlist
 //@   at call (*Memberlist).encodeAndSendMsg: assert relay-pings-requested-port [C19]: m.config.ProtocolVersion >= 2 && $reqPort != 0 ==> $relayPort == $reqPort     // from protocol version 2 on the request carries the target's port
 //@   at call (*Memberlist).setAckHandler: assert relay-expires-with-probe [C19]: timeout == m.config.ProbeTimeout     // the pending record is dropped when the nack is due
 //@   at call (*Memberlist).encodeAndSendMsg: assert relay-pings-with-fresh-seq [C19]: msgType == pingMsg && typeIs(msg, *ping) && unbox(msg, *ping).SeqNo == $relaySeq && unbox(msg, *ping).Node == ind.Node
+//@   at call decode: set $relayReg := false
+//@   at call decode: set $nackArmed := false
+//@   at call decode: set $reqNack := ind.Nack
+//@   at call (*Memberlist).setAckHandler: set $relayReg := true
+//@   at go (*Memberlist).handleIndirectPing$2: set $nackArmed := true
+//@   ensures-internal nack-armed-iff-requested [C19]: $relayReg ==> ($nackArmed <==> $reqNack)     // whatever happens to the relay's own ping (send error included), the nack timer is started exactly when a nack was asked for
 
 // relay closures: success is relayed under the requester's number; the nack carries the requester's number
 //@ func (*Memberlist).handleIndirectPing$1(payload, timestamp)
